@@ -22,9 +22,14 @@ structure St where
   monP  : BindSpec.Mon := {}
   geoA  : BindSpec.Geo := { lo := 0, hi := 0, capacity := 0 }
   geoP  : BindSpec.Geo := { lo := 0, hi := 0, capacity := 0 }
-  /-- values the DECLINE handler put back on a free list in this sequence (finding D7) -/
-  taint7A : List Nat := []
-  taint7P : List Nat := []
+  /-- finding D7.  (client, value) pairs: the DECLINE handler put `value` back on a free list although the
+      monitor still counts it as bound to `client` (it named another address, or it is the delegated prefix).
+      A pair is dropped as soon as the client is ACKed again, releases, or its binding lapses in the monitor. -/
+  taint7A : List (Nat × Nat) := []
+  taint7P : List (Nat × Nat) := []
+  /-- addresses the DECLINE handler freed that the monitor recorded as declined (they stay declined for ever;
+      serving one again is finding D7 by definition) -/
+  declined7 : List Nat := []
 
 /-- `1,2@<hint>` → IAIDs (the hints are ignored by the server and by the model) -/
 def parseIAs (s : String) : Option (List Nat) :=
@@ -166,7 +171,7 @@ def exhaustionClause (g : BindSpec.Geo) (mon : BindSpec.Mon) (pool : FPool) (lea
   let counted := BindSpec.heldValues g mon ++ mon.declined ++ mon.soft
   let extra := pool.allocated.filter (fun p => !(counted.contains p.2))
   let d6 := extra.filter (fun p => leaseVal p.1 == some p.2)
-  let enough := decide ((BindSpec.heldValues g mon).length + ((mon.declined ++ mon.soft).filter g.usable).eraseDups.length
+  let enough := decide ((BindSpec.heldValues g mon).length + ((mon.declined ++ mon.soft).filter g.inPool).eraseDups.length
                   + extra.length ≥ g.capacity)
   if extra.isEmpty || !enough then "none"
   else if !d6.isEmpty then "D6" else "D8"
@@ -201,15 +206,24 @@ def step (st : St) (toks : List String) (impl : String) : St × LineResult :=
         | .dec d _ => let (s', r) := Dhcp6.step s (.decline d); (s', showReply s.cfg r)
         | .tick n => ((Dhcp6.step s (.advance (60 * n))).1, "ok")
       -- finding D7: what the DECLINE handler released
-      let (tA, tP) : List Nat × List Nat :=
+      let (tA, tP, d7) : List (Nat × Nat) × List (Nat × Nat) × List Nat :=
         match line with
-        | .dec d _ =>
+        | .dec d named =>
           (match AMap.lookup s.leases d with
             | some l =>
-              ((match l.addr with | some a => a :: st.taint7A | none => st.taint7A),
-               (match l.pfx with | some p => p :: st.taint7P | none => st.taint7P))
-            | none => (st.taint7A, st.taint7P))
-        | _ => (st.taint7A, st.taint7P)
+              ((match l.addr with | some a => (d, a) :: st.taint7A | none => st.taint7A),
+               (match l.pfx with | some p => (d, p) :: st.taint7P | none => st.taint7P),
+               (match l.addr, named with
+                 | some a, some n => if a == n || st.taint7A.contains (d, n) then n :: st.declined7 else st.declined7
+                 | none, some n => if st.taint7A.contains (d, n) then n :: st.declined7 else st.declined7
+                 | _, _ => st.declined7))
+            | none =>
+              -- nothing left to release, but an EARLIER decline of this client may have freed the address it names now
+              (st.taint7A, st.taint7P,
+               (match named with
+                 | some n => if st.taint7A.contains (d, n) then n :: st.declined7 else st.declined7
+                 | none => st.declined7)))
+        | _ => (st.taint7A, st.taint7P, st.declined7)
       let askedA := match line with
         | .op (.solicit _ _ a _) => a.length
         | _ => 0
@@ -220,15 +234,27 @@ def step (st : St) (toks : List String) (impl : String) : St × LineResult :=
         (events line impl "na=" (if s.cfg.hasAddr then askedA else 0) s.cfg.valid true)
       let (monP', vP) := checkAll st.geoP st.monP
         (events line impl "pd=" (if s.cfg.hasPfx then askedP else 0) s.cfg.valid false)
+      let clauseOf := fun (pairs : List (Nat × Nat)) (isAddr : Bool) (v : BindSpec.Verdict) =>
+        if v.name == "declined-reoffered" then (if isAddr && d7.contains v.value then "D7" else "none")
+        else if v.name == "range" then "none"
+        else if pairs.any (·.2 == v.value) then "D7" else "none"
       let clauseA := fun (v : BindSpec.Verdict) =>
         if v.name == "not-reusable" then
           exhaustionClause st.geoA monA' s'.apool (fun d => (AMap.lookup s'.leases d).bind (·.addr))
-        else if tA.contains v.value then "D7" else "none"
+        else clauseOf tA true v
       let clauseP := fun (v : BindSpec.Verdict) =>
         if v.name == "not-reusable" then
           exhaustionClause st.geoP monP' s'.ppool (fun d => (AMap.lookup s'.leases d).bind (·.pfx))
-        else if tP.contains v.value then "D7" else "none"
-      ({ st with model := some s', monA := monA', monP := monP', taint7A := tA, taint7P := tP },
+        else clauseOf tP false v
+      -- a pair stays only while the monitor still holds a live binding of that client on that value which the model
+      -- does not back: a lease the model's lease table does not record, or an offer its pool does not hold
+      let prune := fun (mon : BindSpec.Mon) (leaseVal : Nat → Option Nat) (pool : FPool) (pairs : List (Nat × Nat)) =>
+        pairs.filter fun (c, v) =>
+          mon.table.any fun b => b.client == c && b.value == v && b.live mon.now &&
+            (if b.lease then leaseVal c != some v else AMap.lookup pool.allocated c != some v)
+      ({ st with model := some s', monA := monA', monP := monP', declined7 := d7,
+                 taint7A := prune monA' (fun d => (AMap.lookup s'.leases d).bind (·.addr)) s'.apool tA,
+                 taint7P := prune monP' (fun d => (AMap.lookup s'.leases d).bind (·.pfx)) s'.ppool tP },
        { modelObs := reply ++ " " ++ showSnapshot s',
          viols := vA.map (fun v => (v.name, clauseA v, "address: " ++ v.detail)) ++
                   vP.map (fun v => (v.name, clauseP v, "prefix: " ++ v.detail)) })
